@@ -53,6 +53,28 @@ def slow_scalar_kw(J, scale=1.0, offset=0.0):
     return scale * (J[0] + 2 * J[1] + 3 * J[2]) + offset
 
 
+def table_scalar(J, table=None, weights=None):
+    """reads whole tables handed over as extra arguments (one of them happens to have one row per sampling point)"""
+    return float(np.sum(table) * J[0] + table[0] * J[1] + table[-1] * J[2] + (0.0 if weights is None else np.sum(weights[:, 0] * J[0] - weights[:, 1] * J[2])))
+
+
+def table_vector(J, table=None, weights=None):
+    return np.array([table[0] * J[0], table[len(table) // 2] * J[1], np.max(table) * J[2], float(len(table))])
+
+
+def zero_d(J):
+    """a scalar result that is a 0-d array (what np.sum(..., keepdims=False) on arrays, np.asarray(x) or a reduction hand back)"""
+    return np.asarray(J[0] + 2 * J[1] + 3 * J[2])
+
+
+def one_component(J):
+    return np.array([J[0] - J[1] * J[2]])
+
+
+def matrix_valued(J):
+    return np.array([[J[0], J[1]], [J[2], J[0] * J[1]]])
+
+
 def kwargs_scalar(J, **kw):
     """takes its extras through **kwargs: no named parameter for them"""
     return kw.get("scale", 1.0) * (J[0] - J[1]) + kw.get("offset", 0.0)
@@ -252,6 +274,25 @@ def run(ctx):
                 rep(f"parallel result (shape {data.shape}) differs from the serial evaluation with the same extra arguments (shape {serial.shape})"); continue
             ctx.case((name,), nontrivial=n_jobs > 1)
             ctx.count("parallel_runs_equal_serial")
+    # ---- extra arguments that are whole tables, one of them with exactly one row per sampling point; results that are 0-d arrays, one-component vectors, matrices
+    N_ = len(pts)
+    for fn, fname, extra in ((table_scalar, "table extra of length N", dict(table=np.linspace(0.5, 2.0, N_))), (table_vector, "table extra of length N (vector)", dict(table=np.linspace(-1.0, 3.0, N_))),
+                             (table_scalar, "tables of length N and (N, 2)", dict(table=np.cos(np.arange(N_)), weights=np.stack([np.arange(N_) / N_, np.ones(N_)], axis=1))),
+                             (table_scalar, "table of length 3", dict(table=np.array([1.0, -2.0, 0.5]))),
+                             (zero_d, "0-d array result", {}), (one_component, "one-component result", {}), (matrix_valued, "2 x 2 result", {})):
+        try:
+            serial = np.array([fn(J, **extra) for J in pts]).T
+        except Exception:
+            continue
+        for n_jobs in ([1, 2, 5] if quick else [1, 2, 3, 5, 8, 16]):
+            name = f"compute_phase_diagram({fname}, n_jobs={n_jobs})"
+            try:
+                data = quiet(lambda: pdg.compute_phase_diagram(pts, fn, {k: v.copy() for k, v in extra.items()}, n_jobs=n_jobs))
+            except Exception as ex:
+                ctx.impl_violation(f"{name}: raised {type(ex).__name__}: {ex}", dict(case=name, fn=fname, n_jobs=n_jobs)); continue
+            if np.shape(data) != serial.shape or not np.array_equal(data, serial):
+                ctx.impl_violation(f"{name}: result (shape {np.shape(data)}) differs from function(point, **extra_args) at every point in order (shape {serial.shape})", dict(case=name, fn=fname, n_jobs=n_jobs)); continue
+            ctx.case((name,), nontrivial=True); ctx.count("parallel_runs_equal_serial")
     # ---- the points of the symmetric scheme (the appended centre coincides with a grid point when 3 divides samples - 1: a repeated point), several worker counts
     for s_ in ((4, 7, 10) if quick else (4, 7, 10, 13, 16, 19)):
         sp, _ = pdg.get_triangular_sampling_points(s_)
